@@ -22,7 +22,7 @@ CONSTANTS High, Low,     \* write buffer water marks
           NoWait,        \* sensitivity: drain never waits
           NoRaise        \* sensitivity: drain returns normally on a dead channel
 
-VARIABLES buf,    \* chan._send_buf_len
+VARIABLES buf,    \* chan._send_buf: sizes of the chunks written and not yet sent
           win,    \* chan._send_window
           rw,     \* peer: chan._recv_window
           held,   \* peer: packets received and not yet delivered
@@ -37,9 +37,18 @@ vars == <<buf, win, rw, held, wp, lost, dr, res, resWp, nops, hist>>
 view == <<buf, win, rw, held, wp, lost, dr, res, resWp>>
 
 Min(a, b) == IF a <= b THEN a ELSE b
+RECURSIVE Sum(_)
+Sum(q) == IF q = <<>> THEN 0 ELSE Head(q) + Sum(Tail(q))
 PauseResume(b, p) == IF p THEN b > Low ELSE b > High
 
-Init == /\ buf = 0 /\ win = Win /\ rw = Win /\ held = <<>> /\ wp = FALSE
+\* channel._flush_send_buf: one packet per written chunk, cut at the window
+RECURSIVE Flush(_, _, _)
+Flush(q, w, out) ==
+    IF q = <<>> \/ w = 0 THEN [q |-> q, w |-> w, out |-> out]
+    ELSE IF Head(q) > w THEN Flush(<<Head(q) - w>> \o Tail(q), 0, Append(out, w))
+    ELSE Flush(Tail(q), w - Head(q), Append(out, Head(q)))
+
+Init == /\ buf = <<>> /\ win = Win /\ rw = Win /\ held = <<>> /\ wp = FALSE
         /\ lost = "no" /\ dr = "idle" /\ res = "none" /\ resWp = FALSE
         /\ nops = 0 /\ hist = <<>>
 
@@ -58,13 +67,12 @@ Finish(p, l) ==
     ELSE UNCHANGED <<dr, res, resWp>>
 
 Write(k) ==
-    /\ More /\ lost = "no" /\ buf + k <= MaxBuf
-    /\ LET b1 == buf + k
-           p == Min(b1, win) IN
-         /\ buf' = b1 - p /\ win' = win - p
-         /\ held' = IF p > 0 THEN Append(held, p) ELSE held
-         /\ wp' = PauseResume(b1 - p, wp)
-         /\ Finish(PauseResume(b1 - p, wp), lost)
+    /\ More /\ lost = "no" /\ Sum(buf) + k <= MaxBuf
+    /\ LET f == Flush(Append(buf, k), win, <<>>) IN
+         /\ buf' = f.q /\ win' = f.w
+         /\ held' = held \o f.out
+         /\ wp' = PauseResume(Sum(f.q), wp)
+         /\ Finish(PauseResume(Sum(f.q), wp), lost)
     /\ hist' = Hist(<<"write", k, dr', res'>>)
     /\ Count /\ UNCHANGED <<rw, lost>>
 
@@ -75,15 +83,14 @@ Exchange(b, w, r, h) ==
     IF h = <<>> THEN [b |-> b, w |-> w, r |-> r]
     ELSE LET r1 == r - Head(h) IN
          IF 2 * r1 < Win
-         THEN LET w2 == w + (Win - r1)
-                  p == Min(b, w2) IN
-              Exchange(b - p, w2 - p, Win, Tail(h) \o (IF p > 0 THEN <<p>> ELSE <<>>))
+         THEN LET f == Flush(b, w + (Win - r1), <<>>) IN
+              Exchange(f.q, f.w, Win, Tail(h) \o f.out)
          ELSE Exchange(b, w, r1, Tail(h))
 
 PeerOpen ==
     /\ More /\ lost = "no" /\ held # <<>>
     /\ LET x == Exchange(buf, win, rw, held)
-           p == IF wp THEN x.b > Low ELSE FALSE IN
+           p == IF wp THEN Sum(x.b) > Low ELSE FALSE IN
          /\ buf' = x.b /\ win' = x.w /\ rw' = x.r /\ held' = <<>>
          /\ wp' = p
          /\ Finish(p, lost)
@@ -92,14 +99,14 @@ PeerOpen ==
 
 PeerClose ==
     /\ More /\ lost = "no"
-    /\ lost' = "clean" /\ buf' = 0 /\ held' = <<>>
+    /\ lost' = "clean" /\ buf' = <<>> /\ held' = <<>>
     /\ Finish(wp, "clean")
     /\ hist' = Hist(<<"close", 0, dr', res'>>)
     /\ Count /\ UNCHANGED <<win, rw, wp>>
 
 ConnLost ==
     /\ More /\ lost = "no"
-    /\ lost' = "exc" /\ buf' = 0 /\ held' = <<>>
+    /\ lost' = "exc" /\ buf' = <<>> /\ held' = <<>>
     /\ Finish(wp, "exc")
     /\ hist' = Hist(<<"lost", 0, dr', res'>>)
     /\ Count /\ UNCHANGED <<win, rw, wp>>
@@ -122,9 +129,9 @@ DrainSound ==
     /\ res = "ret" => ~resWp
     /\ res = "raise" => lost # "no"
     /\ dr = "waiting" => (wp /\ lost = "no")
-    /\ ~wp /\ lost = "no" => buf <= High
+    /\ ~wp /\ lost = "no" => Sum(buf) <= High
 
-TypeOK == buf >= 0 /\ win >= 0 /\ rw >= 0 /\ rw <= Win
+TypeOK == win >= 0 /\ rw >= 0 /\ rw <= Win
 
 NeverWaited == dr # "waiting"
 NeverRaised == res # "raise"
